@@ -37,7 +37,7 @@ func (g *wsconcG) wlen() int {
 		return 5
 	case 5, 6:
 		if g.raw && g.max > 100000 {
-			return g.r.pick(20000, 40000, 100000, 200000)
+			return g.r.pick(7000, 20000, 40000, 100000)
 		}
 		return 17
 	case 7:
@@ -210,7 +210,7 @@ func wsconcEnum(args []string, w *bufio.Writer) {
 			case 1:
 				fmt.Fprintf(w, "! write %d 1 5\n", id)
 			case 2:
-				fmt.Fprintf(w, "! write %d 2 70000\n", id)
+				fmt.Fprintf(w, "! write %d 2 20000\n", id)
 			case 3:
 				fmt.Fprintf(w, "! peer 1 0 9 0 aa\n")
 			case 4:
